@@ -497,4 +497,76 @@ def qrQ (a : CMat) : CMat := Id.run do
 
 end Num
 
+/-! ## C02: parameter counts of the module constructors and manifold dimensions -/
+namespace Count
+
+/-- `r(r+1)/2` -/
+def tri (r : Nat) : Nat := r * (r + 1) / 2
+
+/-- `Trace1PSD.__init__` (`_internal.py:147-157`) -/
+def psdParam (dim rank : Nat) (isReal : Bool) (cholesky : Bool) : Nat :=
+  if cholesky then
+    let N0 := (rank * (2 * dim - rank + 1)) / 2
+    if isReal then N0 else 2 * N0 - rank
+  else
+    if isReal then rank + dim * rank else rank + 2 * dim * rank
+
+/-- dimension of the trace-one PSD matrices of rank `≤ r` (`dr - r(r-1)/2 - 1` real, `2dr - r² - 1` complex) -/
+def psdDim (dim rank : Nat) (isReal : Bool) : Nat :=
+  if isReal then dim * rank - rank * (rank - 1) / 2 - 1 else 2 * dim * rank - rank * rank - 1
+
+/-- `SymmetricMatrix.__init__` (`_internal.py:290-296`) -/
+def symParam (dim : Nat) (isReal isTrace0 : Bool) : Nat :=
+  (if isReal then (dim * (dim + 1)) / 2 else dim * dim) - (if isTrace0 then 1 else 0)
+
+/-- `is_norm1` removes one more dimension -/
+def symDim (dim : Nat) (isReal isTrace0 isNorm1 : Bool) : Nat := symParam dim isReal isTrace0 - (if isNorm1 then 1 else 0)
+
+/-- `Ball.__init__` -/
+def ballParam (dim : Nat) (isReal : Bool) : Nat := if isReal then dim else 2 * dim
+
+/-- `Sphere.__init__` (`_internal.py:467-476`) -/
+def sphereParam (dim : Nat) (isReal quotient : Bool) : Nat :=
+  if isReal then (if quotient then dim else dim - 1) else (if quotient then 2 * dim else 2 * dim - 1)
+
+def sphereDim (dim : Nat) (isReal : Bool) : Nat := if isReal then dim - 1 else 2 * dim - 1
+
+/-- `DiscreteProbability.__init__` -/
+def probParam (dim : Nat) : Nat := dim
+def simplexDim (dim : Nat) : Nat := dim - 1
+
+/-- `SpecialOrthogonal.__init__` (`_internal.py:652-657`) -/
+def soParam (dim : Nat) (isReal : Bool) : Nat := if isReal then dim * (dim - 1) / 2 else dim * dim - 1
+def soDim (dim : Nat) (isReal : Bool) : Nat := if isReal then dim * (dim - 1) / 2 else dim * dim - 1
+
+/-- Stiefel methods -/
+inductive StMethod | choleskyL | qr | polar | soExp | soCayley | euler
+deriving DecidableEq
+
+/-- `Stiefel.__init__` (`_stiefel.py:40-53`) -/
+def stiefelParam (dim rank : Nat) (isReal : Bool) (m : StMethod) (eulerWithPhase : Bool) : Nat :=
+  match m with
+  | .qr | .polar => if isReal then dim * rank else 2 * dim * rank
+  | .choleskyL => (dim * rank - (rank * (rank + 1)) / 2) * (if isReal then 1 else 2)
+  | .soExp | .soCayley => if isReal then (dim * (dim - 1)) / 2 else dim * dim - 1
+  | .euler =>
+    if isReal then dim * rank - rank * (rank + 1) / 2
+    else if eulerWithPhase then 2 * dim * rank - rank * rank else 2 * dim * rank - rank * (rank + 1)
+
+/-- dimension of the Stiefel manifold (`dr - r(r+1)/2` real, `2dr - r²` complex) -/
+def stiefelDim (dim rank : Nat) (isReal : Bool) : Nat :=
+  if isReal then dim * rank - rank * (rank + 1) / 2 else 2 * dim * rank - rank * rank
+
+/-- rank of the differential claimed by the property for each Stiefel chart: the manifold dimension, except for the
+minimal-parameter complex charts (choleskyL, euler without phase: the parameter count `2dr - r² - r`) and for the
+special-unitary charts with `rank = dim` (`d² - 1`, the dimension of `SU(d)`). -/
+def stiefelRank (dim rank : Nat) (isReal : Bool) (m : StMethod) (eulerWithPhase : Bool) : Nat :=
+  match m with
+  | .qr | .polar => stiefelDim dim rank isReal
+  | .choleskyL => stiefelParam dim rank isReal .choleskyL false
+  | .euler => stiefelParam dim rank isReal .euler eulerWithPhase
+  | .soExp | .soCayley => if !isReal && rank = dim then dim * dim - 1 else stiefelDim dim rank isReal
+
+end Count
+
 end Numqi.Manifold
